@@ -48,16 +48,17 @@ pub fn spec(args: &[String]) -> i32 {
     let seed: u64 = args.get(1).and_then(|s| s.parse().ok()).unwrap_or(1);
     let mut g = Gen::new(seed ^ 0xC02);
     let mut st = Stats::new();
-    let n = if thorough { 1_500_000 } else { 60000 };
+    let n = if thorough { 2_000_000 } else { 80000 };
     for case in 0..n {
-        let stream = case % 3;
+        let stream = case % 4;
         let nr = 1 + g.rng.below(3);
         let rules: Vec<String> = (0..nr).map(|_| match stream {
             0 => { let p = if g.rng.chance(1, 2) { Profile::Full } else { Profile::Tame }; g.rule(p) }
             1 => { let r = g.rule(Profile::Full); mutate(&mut g, &r) }
+            3 => g.edge_rule(),
             _ => { let k = 1 + g.rng.below(12); noise(&mut g, k) }
         }).collect();
-        let words: Vec<String> = (0..1 + g.rng.below(3)).map(|_| match g.rng.below(10) { 0 => { let k = g.rng.below(8); noise(&mut g, k) }, 1 => { let w = g.word(); mutate(&mut g, &w) }, 2 => g.small_word(), _ => g.word() }).collect();
+        let words: Vec<String> = (0..1 + g.rng.below(3)).map(|_| if stream == 3 { g.small_word() } else { match g.rng.below(10) { 0 => { let k = g.rng.below(8); noise(&mut g, k) }, 1 => { let w = g.word(); mutate(&mut g, &w) }, 2 => g.small_word(), _ => g.word() } }).collect();
         let into: Vec<String> = if g.rng.chance(1, 8) { vec![if g.rng.chance(1, 3) { let k = g.rng.below(8); noise(&mut g, k) } else { alias_line(&mut g, true) }] } else { vec![] };
         let from: Vec<String> = if g.rng.chance(1, 8) { vec![if g.rng.chance(1, 3) { let k = g.rng.below(8); noise(&mut g, k) } else { alias_line(&mut g, false) }] } else { vec![] };
         let groups = [RuleGroup::from("g", rules.clone(), "")];
@@ -103,11 +104,19 @@ pub fn spec(args: &[String]) -> i32 {
             let rule_for_label = if min_rule.is_empty() { rules.iter().map(|r| r.split(";;").next().unwrap_or("").to_string()).collect::<Vec<_>>().join(" \n ") } else { min_rule.split(";;").next().unwrap_or("").to_string() };
             let head = rule_for_label.trim_start();
             let inp_has_bound = rule_for_label.split(|c| c == '>').next().map_or(false, |i| i.contains('$'));
-            let rtype = if rule_for_label.replace(' ', "").contains("(,") { "empty-optional" } else if head.starts_with('*') || head.starts_with('∅') { "insertion" } else if inp_has_bound && !rule_for_label.contains('&') && !rule_for_label.contains("> *") && !rule_for_label.contains("> ∅") { "substitution-with-boundary-input" } else if rule_for_label.contains('&') { "metathesis" } else if rule_for_label.contains("> *") || rule_for_label.contains("> ∅") { "deletion" } else { "substitution" };
+            let inp_part = rule_for_label.split(|c| c == '>' || c == '→' || c == '=' || c == '-').next().unwrap_or("");
+            let has_empty_input_term = inp_part.split(',').any(|t| { let t = t.trim(); t == "*" || t == "∅" });
+            let rtype = if rule_for_label.replace(' ', "").contains("(,") { "empty-optional" } else if head.starts_with('*') || head.starts_with('∅') || has_empty_input_term { "insertion" } else if inp_has_bound && !rule_for_label.contains('&') && !rule_for_label.contains("> *") && !rule_for_label.contains("> ∅") { "substitution-with-boundary-input" } else if rule_for_label.contains('&') { "metathesis" } else if rule_for_label.contains("> *") || rule_for_label.contains("> ∅") { if inp_has_bound { "deletion-with-boundary-input" } else { "deletion" } } else { "substitution" };
             let kind = if let Some(p) = what.strip_prefix("panic ") {
                 let (msg, loc) = match p.rsplit_once(" @ ") { Some((m, l)) => (m, l), None => (p, "?") };
                 let mc = if msg.contains("PosOverflow") { "number-too-large" } else if msg.contains("index out of bounds") || msg.contains("out of range") { "index-out-of-bounds" } else if msg.contains("None") { "unwrap-none" } else if msg.contains("capacity overflow") || msg.contains("subtract with overflow") { "arithmetic" } else if msg.contains("not implemented") || msg.contains("unreachable") { "unimplemented-or-unreachable" } else { "other" };
-                format!("c02-panic|{loc}|{mc}")
+                // the shape of the failing rule is part of the identity of a finding: the same function can fail for unrelated reasons
+                let inp = rule_for_label.split(|c| c == '>' || c == '→').next().unwrap_or("");
+                let squeezed: String = rule_for_label.chars().filter(|c| !c.is_whitespace()).collect();
+                let empty_term = squeezed.contains(",,") || squeezed.starts_with(',') || [",>", ",=>", ",->", ",→", ",/", ",|"].iter().any(|x| squeezed.contains(x)) || squeezed.ends_with(',');
+                let shape = if loc.contains("/alias/") { "alias" } else if inp.contains('…') || inp.contains("..") { "input-ellipsis" } else if rtype == "insertion" { rtype } else if empty_term { "empty-list-term" } else { rtype };
+                // an overflowing number and an `unreachable!()` are identified by the function they sit in
+                if mc == "number-too-large" || mc == "unimplemented-or-unreachable" { format!("c02-panic|{loc}|{mc}") } else { format!("c02-panic|{loc}|{mc}|{shape}") }
             } else { format!("c02-hang|{rtype}") };
             println!("FINDING {kind} apis={} rules={:?} words={:?} into={:?} from={:?} minimal_rule={:?} minimal_word={:?}",
                 bad.iter().map(|b| b.0.clone()).collect::<Vec<_>>().join("+"), rules, words, into, from, min_rule, min_word);
